@@ -13,4 +13,4 @@ run_one() {
   echo "$name caught_by=[${caught% }] silent=[${missed% }]"
 }
 export -f run_one; export TIER
-ls -d seeded/*/ | sed 's#/$##' | while read d; do grep -q '"superseded"' $d/meta.json || echo $d; done | xargs -P 4 -I{} bash -c 'run_one {}' | sort
+ls -d seeded/*/ | sed 's#/$##' | while read d; do grep -q '"superseded"\|"out_of_domain"' $d/meta.json || echo $d; done | xargs -P 4 -I{} bash -c 'run_one {}' | sort
